@@ -399,11 +399,107 @@ impl KeyTy {
                 };
                 rank(a).cmp(&rank(b))
             }
-            KeyTy::Opt(_) | KeyTy::Array(_, _) | KeyTy::Tuple(_) | KeyTy::Unknown(_) => {
+            KeyTy::Opt(t) => {
+                let (x, y) = (*a.first()?, *b.first()?);
+                if x > 1 || y > 1 {
+                    return None;
+                }
+                match (x, y) {
+                    (0, 0) => Ordering::Equal,
+                    (0, _) => Ordering::Less,
+                    (_, 0) => Ordering::Greater,
+                    _ => t.compare(&a[1..], &b[1..])?,
+                }
+            }
+            KeyTy::Array(t, n) => {
+                let ea = split_array(t, *n, a)?;
+                let eb = split_array(t, *n, b)?;
+                for (x, y) in ea.iter().zip(eb.iter()) {
+                    let o = t.compare(x, y)?;
+                    if o != Ordering::Equal {
+                        return Some(o);
+                    }
+                }
+                Ordering::Equal
+            }
+            KeyTy::Tuple(ts) => {
+                let ea = split_tuple(ts, a)?;
+                let eb = split_tuple(ts, b)?;
+                for ((t, x), y) in ts.iter().zip(ea.iter()).zip(eb.iter()) {
+                    let o = t.compare(x, y)?;
+                    if o != Ordering::Equal {
+                        return Some(o);
+                    }
+                }
+                Ordering::Equal
+            }
+            KeyTy::Unknown(_) => {
                 return None;
             }
         })
     }
+}
+
+fn split_array<'d>(t: &KeyTy, n: usize, d: &'d [u8]) -> Option<Vec<&'d [u8]>> {
+    let mut out = Vec::with_capacity(n);
+    if let Some(w) = t.fixed_width() {
+        if d.len() != w * n {
+            return None;
+        }
+        for i in 0..n {
+            out.push(&d[w * i..w * (i + 1)]);
+        }
+    } else {
+        let mut start = 4 * n;
+        for i in 0..n {
+            let end = u32le(d, 4 * i)? as usize;
+            out.push(d.get(start..end)?);
+            start = end;
+        }
+    }
+    Some(out)
+}
+
+fn varint(d: &[u8]) -> Option<(usize, usize)> {
+    match *d.first()? {
+        x @ 0..=253 => Some((x as usize, 1)),
+        254 => Some((u16le(d, 1)? as usize, 3)),
+        _ => Some((u32le(d, 1)? as usize, 5)),
+    }
+}
+
+fn split_tuple<'d>(ts: &[KeyTy], d: &'d [u8]) -> Option<Vec<&'d [u8]>> {
+    let all_fixed = ts.iter().all(|t| t.fixed_width().is_some());
+    let mut lens: Vec<Option<usize>> = vec![];
+    let mut off = 0usize;
+    for (i, t) in ts.iter().enumerate() {
+        if let Some(w) = t.fixed_width() {
+            lens.push(Some(w));
+        } else if all_fixed || i + 1 == ts.len() {
+            lens.push(None);
+        } else {
+            let (l, used) = varint(d.get(off..)?)?;
+            off += used;
+            lens.push(Some(l));
+        }
+    }
+    let mut out = Vec::with_capacity(ts.len());
+    for (i, l) in lens.iter().enumerate() {
+        let l = match l {
+            Some(l) => *l,
+            None => {
+                // last element: the remainder
+                debug_assert!(i + 1 == ts.len());
+                d.len().checked_sub(off)?
+            }
+        };
+        out.push(d.get(off..off + l)?);
+        off += l;
+    }
+    if off != d.len() {
+        return None;
+    }
+    Some(out)
 }
 
 fn parse_ty(s: &str) -> Option<(KeyTy, &str)> {
@@ -914,7 +1010,7 @@ impl<'a> Decoder<'a> {
             if def.key_align != 1 || def.value_align != 1 {
                 return Err(format!("{owner}: alignment fields are not 1"));
             }
-            let mut order_checked = kty.known() && !matches!(kty, KeyTy::Opt(_) | KeyTy::Array(..) | KeyTy::Tuple(_));
+            let mut order_checked = kty.known();
             let mut stats = TreeStats::default();
             let mut inline_c = 0u64;
             let mut subtree_c = 0u64;
@@ -949,7 +1045,7 @@ impl<'a> Decoder<'a> {
                 }
                 TableKind::Multimap => {
                     let vty = KeyTy::parse(def.value_class, &def.value_type);
-                    if !vty.known() || matches!(vty, KeyTy::Opt(_) | KeyTy::Array(..) | KeyTy::Tuple(_)) {
+                    if !vty.known() {
                         order_checked = false;
                     }
                     let mut raw: Vec<(Vec<u8>, Vec<u8>)> = vec![];
@@ -1484,4 +1580,99 @@ pub fn check_image(img: &[u8], cross_hash: bool) -> Result<(Forest, Decoder<'_>)
             .map_err(|e| format!("persistent savepoint {}: {e}", sp.id))?;
     }
     Ok((f, d))
+}
+
+
+/// Sync hook for M1: judge the durable image at every completed sync (C10) and compute the
+/// copy-on-write protected set (C06/C20).
+pub fn sync_hook(cross_hash: bool) -> crate::backend::SyncHook {
+    std::sync::Arc::new(move |img: &[u8]| {
+        let mut v = crate::backend::SyncVerdict::default();
+        if img.len() < HEADER_LEN || img[..9] != MAGIC {
+            // database creation in progress: no committed image yet
+            return v;
+        }
+        match check_image(img, cross_hash) {
+            Ok((f, d)) => {
+                let mut pages: BTreeSet<PageNo> = BTreeSet::new();
+                pages.extend(f.data_pages.iter().copied());
+                pages.extend(f.system_pages.iter().copied());
+                let mut max_depth = f.user_catalog_stats.depth;
+                let mut leaves = f.user_catalog_stats.leaves + f.system_catalog_stats.leaves;
+                let mut branches = f.user_catalog_stats.branches + f.system_catalog_stats.branches;
+                let mut multi = 0;
+                let mut inline_c = 0;
+                let mut subtree_c = 0;
+                let mut max_sub = 0;
+                for t in f.user.values().chain(f.system.values()) {
+                    max_depth = max_depth.max(t.stats.depth);
+                    leaves += t.stats.leaves;
+                    branches += t.stats.branches;
+                    multi += t.stats.multi_page_leaves;
+                    inline_c += t.inline_collections;
+                    subtree_c += t.subtree_collections;
+                    max_sub = max_sub.max(t.max_subtree_depth);
+                }
+                let mut user_depth = 0;
+                let mut user_multi = 0;
+                let mut user_branches = 0;
+                for t in f.user.values() {
+                    user_depth = user_depth.max(t.stats.depth);
+                    user_multi += t.stats.multi_page_leaves;
+                    user_branches += t.stats.branches;
+                }
+                let mut d2 = d;
+                for sp in &f.savepoints {
+                    if let Ok((_, p)) = d2.savepoint_tree(sp.root) {
+                        pages.extend(p);
+                    }
+                }
+                let mut ranges = vec![];
+                for p in &pages {
+                    if let Ok(r) = d2.layout.range(*p) {
+                        ranges.push(r);
+                    }
+                }
+                ranges.sort_unstable();
+                let mut merged: Vec<(u64, u64)> = vec![];
+                for r in ranges {
+                    if let Some(last) = merged.last_mut() {
+                        if r.0 < last.1 {
+                            last.1 = last.1.max(r.1);
+                            continue;
+                        }
+                    }
+                    merged.push(r);
+                }
+                v.protected = Some(merged);
+                v.obs = vec![
+                    ("images_decoded".into(), 1),
+                    ("max.tree_depth".into(), u64::from(max_depth)),
+                    ("max.user_tree_depth".into(), u64::from(user_depth)),
+                    ("user_multi_page_leaves".into(), user_multi),
+                    ("user_branch_pages".into(), user_branches),
+                    ("max.subtree_depth".into(), u64::from(max_sub)),
+                    ("leaf_pages_walked".into(), leaves),
+                    ("branch_pages_walked".into(), branches),
+                    ("multi_page_leaves".into(), multi),
+                    ("inline_collections".into(), inline_c),
+                    ("subtree_collections".into(), subtree_c),
+                    ("max.tables".into(), (f.user.len() + f.system.len()) as u64),
+                    ("savepoint_roots_walked".into(), f.savepoints.len() as u64),
+                    ("order_unchecked_tables".into(), f.order_unchecked_tables.len() as u64),
+                    ("hash_cross_checks".into(), d2.hash_cross_checks),
+                    (
+                        "pending_free_records".into(),
+                        (f.data_freed.len() + f.system_freed.len()) as u64,
+                    ),
+                    ("allocated_page_records".into(), f.data_allocated.len() as u64),
+                    ("allocator_state_tables".into(), u64::from(f.alloc_state.is_some())),
+                ];
+            }
+            Err(e) => {
+                v.error = Some(e);
+            }
+        }
+        v
+    })
 }
